@@ -150,6 +150,34 @@ def run(ck):
             for pr, r in zip(pairs, pmap(runpair, pairs)):
                 total_trans += 1
                 on_step([pr[0]], pr[1], r['steps'][-1][0], r)
+    # ---- strings that reach or cross 2^31 bytes ("far above the limit"): the record is made before the kernel would refuse the exec.  One history per
+    # (build, limit): huge calls interleaved with ordinary ones - nothing of a huge call may leak into, or be missing from, the next record either
+    for vname, ts in variants:
+        v = H.build_exec_harness('c06-%s-asan' % vname, ts=ts)
+        for dsmax in (255, 2047):
+            cfg = b'[snoopy]\nmessage_format = %%{filename}|%%{cmdline}\ndatasource_message_max_length = %d\noutput = file:log\n' % dsmax
+            plain = 'call execve %s %s [] -1 2' % (H.hx(b'/bin/q'), H.vec([H.hx(b'q'), H.hx(b'x y')]))
+            steps = ['hugecall mid', plain, 'hugecall sum', 'hugecall path', plain, 'hugecall nullargv', plain]
+            want = {'hugecall mid': b'/bin/prog|' + (b'first ' + b'A' * dsmax)[:dsmax], 'hugecall sum': b'/bin/prog|' + (b'first ' + b'A' * dsmax)[:dsmax],
+                    'hugecall path': b'A' * dsmax + b'|prog', 'hugecall nullargv': b'A' * dsmax + b'|' + b'A' * dsmax, plain: b'/bin/q|q x y'}
+            r = H.run_script(v['h_exec'], os.path.join(ck.workdir, 'huge-%s-%d' % (vname, dsmax)), '\n'.join(['sinks pipe', 'lean 1', 'cfg ' + H.hx(cfg)] + steps), env_extra={'VERIF_HEXMAX': '8192'}, timeout=900)
+            calls = [l for l in r['lines'] if 'call' in l]
+            tag = '%s:ds=%d' % (vname, dsmax)
+            if not r['done'] or r['san'] or len(calls) != len(steps):
+                ck.violation('C06:abort:%s:hist=%s' % (tag, '>'.join(steps[:len(calls) + 1]).replace('hugecall ', 'strings_of_2^31_bytes:')), {'rc': r['rc'], 'sanitizer': r['san'][:1], 'stderr': r['stderr'][-400:]})
+                continue
+            for i, (st, c) in enumerate(zip(steps, calls)):
+                total_trans += 1
+                data = H.sink_bytes(c['logdelta'])
+                outcomes.add((tag, 'huge', st.split()[0] + st.split()[1][:8], H.fnv(data)))
+                bad = []
+                if data != want[st] + b'\n':
+                    bad.append('record_is_not_the_text_cut_to_the_limit' if st.startswith('hugecall') else 'record_after_huge_call_wrong')
+                if c['rec_calls'] != 1:
+                    bad.append('rec_calls')
+                if bad:
+                    ck.violation('C06:%s:%s:hist=%s' % ('+'.join(bad), tag, '>'.join(x.replace('hugecall ', 'strings_of_2^31_bytes:') if x.startswith('huge') else 'plain' for x in steps[:i + 1])),
+                                 {'variant': vname, 'dsmax': dsmax, 'step': st, 'failed': bad, 'record_head': data[:120].decode('latin-1'), 'record_len': len(data), 'wanted_head': want[st][:60].decode('latin-1'), 'seconds': c.get('seconds')})
     if not closed_all:
         ck.capped = True
     ck.assumptions += ['libc-internal state (stdio, allocator) is outside the digest; guarded by executing all ordered pairs directly',
